@@ -519,9 +519,27 @@ func c10ClosedStaysClosed(r *Run, idx int, kind string) {
 		r.Broken("save: %v", err)
 		return
 	}
+	// hybrid kinds: the secondary store holds two keys the memory tier does not (a store that outlives the cache)
+	if a.hybrid() {
+		_ = a.sec.Set(9001, 19001, 1, 0)
+		_ = a.sec.Set(9002, 19002, 1, 0)
+	}
 	a.closeAPI()
 	if a.hybrid() {
 		a.store().Close()
+		// "Set and Delete have no effect" reaches as far as the secondary store: a Delete after Close must not
+		// remove the key there, and a Set after Close (which stores nothing) must not invalidate the copy there
+		_ = a.del(9001)
+		a.set(9002, 29002, 1, 0)
+		_, has1 := a.sec.peek(9001)
+		rec2, has2 := a.sec.peek(9002)
+		if !has1 {
+			r.Violate("delete-has-effect-after-close/secondary-store/"+kind, fmt.Sprintf("%s cache: key 9001 lives in the secondary store only; Close returned, then Delete(9001): the key is gone from the secondary store", kind), map[string]any{"cache": kind})
+		}
+		if !has2 || rec2.Val != 19002 {
+			r.Violate("set-has-effect-after-close/secondary-store/"+kind, fmt.Sprintf("%s cache: key 9002 lives in the secondary store only; Close returned, then Set(9002, 29002): the secondary store now holds (%v, present=%v), want the untouched 19002", kind, rec2.Val, has2), map[string]any{"cache": kind})
+		}
+		r.Count("post_close_writes_checked_against_the_secondary_store", 2)
 	}
 	lerr := a.load(3, &buf)
 	fail := func(key, what string) {
